@@ -79,6 +79,9 @@ Env ==
            /\ UNCHANGED <<opt, ttl, sqCap, rqCap, sclosed, pipes, pclosed, rxHold, recvQ, sendQ, txHold, cclosed, recvWait,
                           backtrace, recvPipe, call, timers, arrived, taken, sent>>
            /\ Say("advto " \o ToString(d)) /\ Keep
+     \* RESPONDENT: the receive queue is replaced by one of another length, whatever is queued or held
+     \/ /\ ~IsRep /\ ~sclosed
+        /\ \E n \in {0, 2} : n # rqCap /\ SetRQ(n) /\ Say("rq " \o ToString(n)) /\ Keep
      \/ /\ c2 \in Ctx /\ ~cclosed[c2] /\ CtxClose(c2, "ok") /\ Say("cclose c1") /\ Keep
      \/ /\ ~sclosed /\ SockClose("ok") /\ Say("sclose") /\ Keep
 
